@@ -195,7 +195,7 @@ def run_case(case, emit):
             bucket += f"/seq={pos}"
         if problems:
             key = "+".join(sorted({p.split(":")[0].split(" after ")[0][:40] for p in problems}))
-            emit({"v": "viol", "b": bucket, "mech": f"{label.split('@')[0]}/{key}",
+            emit({"v": "viol", "b": bucket, "mech": f"{'natural' if ':' in label or '@' not in label else 'injected'}/{key}",
                   "what": f"{label} ({mode}) script={script!r}: {problems}", "case": dict(case, only=label)})
         else:
             emit({"v": "held", "b": bucket,
